@@ -161,6 +161,22 @@ class RefGraph:
                     return False
             if where in ("bstereo", "bchange") and len(key) != 2:
                 return False
+        return self.role_consistent()
+
+    def role_consistent(self):
+        """a bond-centred change descriptor sits on a bond that exists on its
+        side of the reaction (BROKEN: reactant, FORMED: product); otherwise
+        reactant()/product() - and with them == and hash - have no meaning
+        and the pinned implementation raises"""
+        ok = {"BROKEN": (None, "BROKEN"), "FORMED": (None, "FORMED"),
+              "FLEETING": (None, "BROKEN", "FORMED", "FLEETING")}
+        for b, t in self.bchange.items():
+            if b not in self.bonds:
+                return False
+            br = self.bonds[b].get("reaction")
+            for r in t:
+                if br not in ok[r]:
+                    return False
         return True
 
     def fully_specified(self):
